@@ -1303,8 +1303,8 @@ func (r *Rng) genHistory() *history {
 		}
 		g.step()
 	default:
-		steps := 2 + r.Pick(11)
-		for i := 0; i < steps && len(g.ops) < 15; i++ {
+		steps := 2 + r.Pick(c13MaxOps-4)
+		for i := 0; i < steps && len(g.ops) < c13MaxOps; i++ {
 			g.step()
 		}
 	}
@@ -1353,10 +1353,14 @@ func c13Corpus() []*history {
 
 const c13PerShard = 64
 
+// longest history outside the deep replace chains (quick 15, thorough 25)
+var c13MaxOps = 15
+
 func cmdC13(seed int64, tier, outDir string) {
 	n := 320
 	if tier == "thorough" {
 		n = 20000
+		c13MaxOps = 25
 	}
 	r := NewRng(seed)
 	sum := NewSummary("C13", seed, tier)
